@@ -1,6 +1,8 @@
 package keeper
 
 import (
+	"math/big"
+
 	feemarkettypes "github.com/EscanBE/evermint/v12/x/feemarket/types"
 	"github.com/cosmos/cosmos-sdk/telemetry"
 	sdk "github.com/cosmos/cosmos-sdk/types"
@@ -24,7 +26,9 @@ func (k Keeper) updateBaseFeeForNextBlock(ctx sdk.Context) {
 
 	defer func() {
 		telemetry.SetGauge(func() float32 {
-			return float32(baseFee.Int64())
+			// the base fee can exceed the int64 range, Int64() would panic and halt the chain
+			baseFeeF32, _ := new(big.Float).SetInt(baseFee.BigInt()).Float32()
+			return baseFeeF32
 		}(), "feemarket", "base_fee")
 	}()
 
